@@ -1,0 +1,46 @@
+//go:build verif
+
+package dastard
+
+// Verification hooks (build tag "verif"). With the tag off, hooks_noverif.go
+// supplies empty versions of these functions and nothing here is compiled.
+// A test harness installs handlers with verifInstall; with no handler installed
+// every hook is a no-op.
+
+import (
+	"sync/atomic"
+	"time"
+)
+
+type verifHandlers struct {
+	Point    func(name string)
+	Span     func(name string) func()
+	Duration func(name string, d time.Duration) time.Duration
+}
+
+var verifCurrent atomic.Pointer[verifHandlers]
+
+func verifInstall(h *verifHandlers) { verifCurrent.Store(h) }
+
+// verifPoint marks a named point in the code (trace, yield, hold, or kill site).
+func verifPoint(name string) {
+	if h := verifCurrent.Load(); h != nil && h.Point != nil {
+		h.Point(name)
+	}
+}
+
+// verifSpan marks the beginning of a named span; the returned func ends it.
+func verifSpan(name string) func() {
+	if h := verifCurrent.Load(); h != nil && h.Span != nil {
+		return h.Span(name)
+	}
+	return func() {}
+}
+
+// verifDuration lets a harness override a hard-coded period.
+func verifDuration(name string, d time.Duration) time.Duration {
+	if h := verifCurrent.Load(); h != nil && h.Duration != nil {
+		return h.Duration(name, d)
+	}
+	return d
+}
